@@ -25,7 +25,7 @@ def fp(x):
     from qiskit_addon_cutting.qpd import QPDBasis
     if isinstance(x, QuantumCircuit):
         # quantum register names are left out: Qiskit auto-numbers unnamed registers with a process-global counter
-        return repr([x.num_qubits, x.num_clbits, [r.size for r in x.qregs], [r.name for r in x.cregs],
+        return repr([x.num_qubits, x.num_clbits, [r.size for r in x.qregs], [r.name for r in x.cregs], repr(x.metadata), x.name if not x.name.startswith("circuit-") else None,
                      [(fp_op(i.operation), [x.find_bit(q).index for q in i.qubits], [x.find_bit(c).index for c in i.clbits]) for i in x.data]])
     if isinstance(x, PauliList):
         return repr([x.z.tolist(), x.x.tolist(), x.phase.tolist()])
@@ -53,6 +53,11 @@ def mutables(x, acc, keep, path="$"):
         acc.setdefault(id(o), p)
     if isinstance(x, QuantumCircuit):
         note(x, path)
+        if isinstance(x.metadata, dict) and x.metadata:
+            note(x.metadata, path + ".metadata")
+            for mk, mv in x.metadata.items():
+                if isinstance(mv, (list, dict)):
+                    note(mv, path + ".metadata[%r]" % (mk,))
         for k, i in enumerate(x.data):
             mutables(i.operation, acc, keep, path + ".data[%d].op" % k)
     elif isinstance(x, Instruction):
